@@ -3,7 +3,6 @@ violations; props.finish() turns that into the evidence file, the output lines a
 import json, os, re
 from collections import Counter
 from . import build, corr, props
-from .pgscan import scan_params
 
 NEEDS_RACE = set()
 CHECKS = {}
@@ -88,6 +87,18 @@ def distribution(ctx, cases):
                                      "outcomes": dict(errs)}
 
 
+def lex_many(texts, scs=True):
+    """Token lists (or None on a lexical error) from the extracted PostgreSQL lexer."""
+    reqs = [f"(lex {corr.tf(scs)} s{t.hex()})" for t in texts]
+    out = []
+    for a in corr.model_answers(reqs):
+        if a.startswith("TOK"):
+            out.append([t for t in a.split(" ")[1:] if t])
+        else:
+            out.append(None)
+    return out
+
+
 def marker(i):
     return b"\x01a%d\x02" % i
 
@@ -104,13 +115,12 @@ def inline_requests(cases):
 
 
 def eval_substitution(ctx, cases):
-    """C03/C04 directly on the implementation's output: placeholders are exactly $1..$n in order of
-    first occurrence, and replacing $k by args[k-1] yields the composed statement with every value
-    in place (the model's stateless rendering)."""
+    """C03/C04 directly on the implementation's output: the parameter tokens of the text (PostgreSQL
+    lexer) are exactly $1..$n in order of first occurrence, and replacing $k by args[k-1] yields the
+    token sequence of the composed statement with every value in place (stateless rendering)."""
     reqs, idx = inline_requests(cases)
     answers = corr.model_answers(reqs)
-    evaluated = nontrivial = excluded = 0
-    seen = set()
+    items = []
     for (ci, ri), a in zip(idx, answers):
         c, r = cases[ci], cases[ci]["renders"][ri]
         if not a.startswith("IL s"):
@@ -118,35 +128,41 @@ def eval_substitution(ctx, cases):
         il = bytes.fromhex(a.split(" ")[1][1:])
         r["used_names"] = sorted({bytes.fromhex(x[1:]).decode("utf8", "surrogateescape")
                                   for x in a.split(" ")[2].split(",") if x.startswith("s")})
-        marked = re.sub(rb"\x01[^\x02]*\x02", b" $0 ", il)
-        found = scan_params(marked)
-        if any(k != 0 for _, _, k in found) or len(found) != il.count(b"\x01"):
-            excluded += 1           # caller-supplied raw text contains a parameter token or an open quote
+        marked = re.sub(rb"\x01a(\d+)\x02", lambda m: b"$%d" % (1000000 + int(m.group(1))), il)
+        marked = re.sub(rb"\x01\?\x02", b"$999999", marked)
+        r["_nmark"] = il.count(b"\x01")
+        items.append((c, r, marked, bytes.fromhex(r["sql"])))
+    toks_il = lex_many([m for _, _, m, _ in items])
+    toks_sql = lex_many([q for _, _, _, q in items])
+    evaluated = nontrivial = excluded = 0
+    seen = set()
+    for (c, r, marked, sql), til, tsql in zip(items, toks_il, toks_sql):
+        if til is None or any(t[0] == "P" and int(bytes.fromhex(t[1:])) < 999999 for t in til) or \
+                sum(1 for t in til if t[0] == "P") != r["_nmark"]:
+            excluded += 1           # caller-supplied raw text does not lex or contains a parameter token itself
             continue
-        sql = bytes.fromhex(r["sql"])
-        ps = scan_params(sql)
         evaluated += 1
+        rep = {"prog": c["prog"], "opts": {"v": r["v"], "p": r["p"], "named": r["named"]},
+               "sql": sql.decode("utf8", "replace"), "args": r["args"]}
+        if tsql is None:
+            ctx.violation("the emitted text does not lex although the composed statement does", rep)
+            continue
+        ks = [int(bytes.fromhex(t[1:])) for t in tsql if t[0] == "P"]
         firsts = []
-        for _, _, k in ps:
+        for k in ks:
             if k not in firsts:
                 firsts.append(k)
         nargs = len(r["args"])
-        rep = {"prog": c["prog"], "opts": {"v": r["v"], "p": r["p"], "named": r["named"]},
-               "sql": sql.decode("utf8", "replace"), "args": r["args"]}
         if firsts != list(range(1, nargs + 1)):
             ctx.violation(f"placeholders {firsts} are not $1..${nargs} in order of first occurrence", rep)
             continue
-        out, last = b"", 0
-        for s, e, k in ps:
-            out += sql[last:s] + marker(r["args"][k - 1])
-            last = e
-        out += sql[last:]
-        if out != il:
-            rep["substituted"] = out.decode("utf8", "replace")
-            rep["composed"] = il.decode("utf8", "replace")
+        sub = [("ARG", r["args"][int(bytes.fromhex(t[1:])) - 1]) if t[0] == "P" else t for t in tsql]
+        exp = [("ARG", int(bytes.fromhex(t[1:])) - 1000000) if t[0] == "P" else t for t in til]
+        if sub != exp:
+            rep["composed"] = marked.decode("utf8", "replace")
             ctx.violation("substituting $k by args[k-1] does not give back the composed statement", rep)
             continue
-        if len(ps) >= 2 and (c["dump"], r["v"], r["p"]) not in seen:
+        if len(ks) >= 2 and (c["dump"], r["v"], r["p"]) not in seen:
             seen.add((c["dump"], r["v"], r["p"]))
             nontrivial += 1
     ctx.cov["evaluations"] = ctx.cov.get("evaluations", 0) + evaluated
@@ -216,6 +232,152 @@ def c04(ctx):
                        "complete, missing one name, nil, with extras; every rendering repeated 5 times (fresh Go map "
                        "order); non-trivial = distinct value x options with >= 2 placeholders")
     ctx.cov["samples"] = samples([c for c in cases if c["binds"]] or cases)
+
+
+# ------------------------------------------------------------------------------------ C14
+
+VALIDATION_PREFIXES = ("identifier: invalid", "type: invalid", "case: no conditions given")
+
+
+def err_lines(r):
+    if r["err"] is None:
+        return []
+    return bytes.fromhex(r["err"]).decode("utf8", "replace").split("\n")
+
+
+def structural_lines(r):
+    # an invalid name may itself contain a newline; its continuation lines belong to the validation error
+    out, skipping = [], False
+    for line in err_lines(r):
+        if line.startswith(VALIDATION_PREFIXES):
+            skipping = True
+            continue
+        if line.startswith(("from item:", "insert:", "func:")):
+            skipping = False
+            out.append(line)
+        elif not skipping:
+            out.append(line)
+    return out
+
+
+@check("C14")
+def c14(ctx):
+    props.check_props_file(ctx, "Props/C14.v")
+    n = 3000 if ctx.quick() else 120000
+    cases = harness_cases(ctx, n, depth=6 if ctx.quick() else 8, hostile=0.05)
+    distribution(ctx, cases)
+    correspondence(ctx, cases)
+    ev = nontriv = 0
+    seen = set()
+    for c in cases:
+        byopt = {(r["v"], r["p"]): r for r in c["renders"][:4]}
+        for p in (False, True):
+            on, off = byopt[(True, p)], byopt[(False, p)]
+            if on.get("panic") or off.get("panic") or on.get("missing") or off.get("missing"):
+                continue
+            ev += 1
+            rep = {"prog": c["prog"], "pretty": p, "validating": corr.decode_obs(corr.impl_obs(on)),
+                   "not_validating": corr.decode_obs(corr.impl_obs(off))}
+            if on["err"] is None:
+                if (on["sql"], on["args"]) != (off["sql"], off["args"]) or off["err"] is not None:
+                    ctx.violation("a query that is valid with validation on renders differently with validation off", rep)
+                elif c["dump"] not in seen and ("IdentExp" in c["dump"] or "expType" in c["dump"]):
+                    seen.add(c["dump"])
+                    nontriv += 1
+            if structural_lines(on) != structural_lines(off):
+                ctx.violation("structural conflicts are not reported identically in both modes", rep)
+    ctx.cov["evaluations"] = ev
+    ctx.cov["distinct_nontrivial"] = nontriv
+    ctx.cov["rule"] = ("type-directed API programs, 5% hostile names; each value rendered validation on/off x pretty on/off; "
+                       "non-trivial = distinct value containing at least one name or cast type whose validating "
+                       "rendering has no error")
+    ctx.cov["samples"] = samples(cases)
+
+
+# ------------------------------------------------------------------------------------ C15
+
+@check("C15")
+def c15(ctx):
+    props.check_props_file(ctx, "Props/C15.v")
+    n = 3000 if ctx.quick() else 120000
+    cases = harness_cases(ctx, n, depth=6 if ctx.quick() else 8,
+                          extra=["-boost", "qrb.InsertInto=25,WithBuilder.InsertInto=25"])
+    distribution(ctx, cases)
+    correspondence(ctx, cases)
+    ev = nontriv = unlexable = 0
+    seen = set()
+    pairs = []
+    for c in cases:
+        byopt = {(r["v"], r["p"]): r for r in c["renders"][:4]}
+        for v in (False, True):
+            pl, pp = byopt[(v, False)], byopt[(v, True)]
+            if pl.get("panic") or pp.get("panic") or pl.get("missing") or pp.get("missing"):
+                continue
+            pairs.append((c, v, pl, pp))
+    toks = {}
+    for scs in (True, False):
+        toks[scs] = (lex_many([bytes.fromhex(pl["sql"]) for _, _, pl, _ in pairs], scs),
+                     lex_many([bytes.fromhex(pp["sql"]) for _, _, _, pp in pairs], scs))
+    for i, (c, v, pl, pp) in enumerate(pairs):
+        ev += 1
+        rep = {"prog": c["prog"], "validating": v, "plain": corr.decode_obs(corr.impl_obs(pl)),
+               "pretty": corr.decode_obs(corr.impl_obs(pp))}
+        if pl["args"] != pp["args"] or pl["err"] != pp["err"]:
+            ctx.violation("pretty printing changes the argument list or the error", rep)
+            continue
+        bad = False
+        for scs in (True, False):
+            ta, tb = toks[scs][0][i], toks[scs][1][i]
+            if ta is None and tb is None:
+                unlexable += 1          # caller-supplied raw text (validation off) that is not SQL at all
+            elif ta != tb:
+                rep["standard_conforming_strings"] = scs
+                ctx.violation("pretty and plain renderings have different PostgreSQL token sequences", rep)
+                bad = True
+                break
+        if not bad and pl["sql"] != pp["sql"] and (c["dump"], v) not in seen:
+            seen.add((c["dump"], v))
+            nontriv += 1
+    ctx.cov["both_renderings_unlexable"] = unlexable
+    ctx.cov["evaluations"] = ev
+    ctx.cov["distinct_nontrivial"] = nontriv
+    ctx.cov["rule"] = ("type-directed API programs with INSERT boosted; plain vs pretty rendering for validation on and "
+                       "off; non-trivial = distinct value x validation whose two texts actually differ")
+    ctx.cov["samples"] = samples([c for c in cases if c["renders"][0]["sql"] != c["renders"][2]["sql"]] or cases)
+
+
+# ------------------------------------------------------------------------------------ C20
+
+@check("C20")
+def c20(ctx):
+    props.check_props_file(ctx, "Props/C20.v")
+    n = 6000 if ctx.quick() else 300000
+    cases = harness_cases(ctx, n, depth=7 if ctx.quick() else 9, hostile=0.1)
+    distribution(ctx, cases)
+    correspondence(ctx, cases)
+    ev = 0
+    for c in cases:
+        for r in c["renders"]:
+            ev += 1
+            if r.get("panic"):
+                ctx.violation("rendering panicked",
+                              {"prog": c["prog"], "opts": {"v": r["v"], "p": r["p"], "named": r["named"]},
+                               "panic": r["panic"]})
+    # every value the API hands out satisfies the well-formedness predicate of the theorem
+    answers = corr.model_answers([f"(wfe {c['dump']})" for c in cases])
+    bad = [c for c, a in zip(cases, answers) if a != "T"]
+    ctx.obligation("every generated API value satisfies wfe (hypothesis of C20_no_panic)", not bad,
+                   json.dumps([{"prog": c["prog"]} for c in bad[:3]]))
+    ctx.cov["evaluations"] = ev
+    ctx.cov["distinct_nontrivial"] = len({c["dump"] for c in cases})
+    ctx.cov["wfe_checked_values"] = len(cases)
+    ctx.cov["rule"] = ("type-directed composition of every exported constructor and method (reflection), non-nil arguments, "
+                       "incl. incomplete statements, zero-length variadics, extreme literals, 10% hostile names; "
+                       "recover() around ToSQL in all four option combinations and with missing / nil maps; "
+                       "distinct = distinct value dumps")
+    ctx.cov["samples"] = samples(cases)
+    ctx.assumptions.append("partial: stack exhaustion and allocation failure of the Go runtime are not modelled; "
+                           "reachable => wfe is checked on generated values, not yet proved over API histories")
 
 
 def baseline_off():
